@@ -56,6 +56,8 @@ type Ops struct {
 	counts map[string]int
 	// forged material prepared for "forged" fault kinds
 	forged *forgery
+	// forgeFull: complete tiles (remote path) to serve with a forged remainder after the first W genuine hashes
+	forgeFull map[string]int
 	// WriteConflicts makes the next n WriteConfig calls see a concurrent update (C13).
 	Interfere func(file string, cur []byte) []byte
 }
@@ -178,6 +180,26 @@ func (o *Ops) deliver(op, name string, honest []byte, herr error) ([]byte, error
 	for _, f := range fs {
 		data, err = o.apply(f, op, name, data, err)
 		applied += f.Kind + " "
+	}
+	if op == "remote" {
+		o.mu.Lock()
+		w, armed := o.forgeFull[name]
+		o.mu.Unlock()
+		if armed {
+			// the server has the complete tile only if its log has grown past it; a forking or lying server
+			// can always produce one: genuine prefix, invented remainder
+			t, _ := ParseTilePath(strings.TrimPrefix(name, "/"))
+			part := t
+			part.W = w
+			if genuine, ok := o.W.Tile(o.Srv.Log, o.Srv.Log.Size(), part); ok {
+				forged := append([]byte(nil), genuine...)
+				for i := len(forged); i < (1<<uint(t.H))*32; i++ {
+					forged = append(forged, byte(i*7+3))
+				}
+				data, err = forged, nil
+				applied += "full-tile-forged-tail "
+			}
+		}
 	}
 	o.mu.Lock()
 	o.Events = append(o.Events, Event{Op: op, Name: name, Delivered: append([]byte(nil), data...), Honest: append([]byte(nil), honest...), HonestErr: herr != nil, Err: err != nil, Faulted: strings.TrimSpace(applied)})
